@@ -12,6 +12,8 @@ use std::{
 #[cfg(feature = "dot2")]
 mod graphviz;
 mod splitting;
+#[cfg(googlefonts_fontations_verif)]
+pub mod verif_hooks;
 
 static OBJECT_COUNTER: AtomicU64 = AtomicU64::new(0);
 
